@@ -26,8 +26,8 @@ Decoders == {"sfnt", "header", "cff", "cmap", "glyf", "GSUB", "GPOS", "GDEF", "c
 Kinds == <<"orig", "trunc", "word", "flip", "ff", "inc", "dec", "pair", "dict", "count", "drop">>
 KindSet == {Kinds[i] : i \in DOMAIN Kinds}
 NumValues == 10
-NumGidValues == 3
-NumTriggers == 3
+NumGidValues == 6
+NumTriggers == 9
 NumDictValues == 6
 NumCountValues == 2
 \* the replacement values of kind "dict" as signed 32-bit integers (hi word, lo word omitted: TLC integers
@@ -51,9 +51,11 @@ WordValue(v, len) ==
 \*          and "one less" boundary of byte-sized fields (FD indices, offSize, nLeft, formats)
 \*   pair   whole fonts, cross-table consistency: each of the ngid glyph-id-valued words the harness's
 \*          walker found (cmap deltas / glyph arrays / groups, maxp and hhea and post counts, kern pairs,
-\*          composite components, GSUB/GPOS coverage glyphs) set to numGlyphs, numGlyphs+1, 0xFFFF
-\*          (NumGidValues), combined with each trigger that switches the reader's fall-backs on
-\*          (NumTriggers: none; OS/2 xHeight and capHeight zeroed; OS/2 table removed)
+\*          composite components, GSUB/GPOS coverage glyphs) set to numGlyphs, numGlyphs+1, 0xFFFF,
+\*          0, 1, numGlyphs-1 (NumGidValues), combined with each trigger that switches the reader's fall-backs on
+\*          (NumTriggers: none; OS/2 xHeight and capHeight zeroed; one of the tables OS/2, maxp, hhea, hmtx,
+\*          post, head, name removed -- the reader has a fall-back for each, which makes a count in one of the
+\*          remaining tables the only witness of the glyph count)
 \*   dict   CFF seeds, 32-bit arithmetic of DICT operands: each of the ndict offset- or size-bearing operands
 \*          stored as a 5-byte int32 (charset, Encoding, CharStrings, Private size and offset, Subrs, FDArray,
 \*          FDSelect, in the Top DICT, every Font DICT and every Private DICT) replaced by each of NumDictValues
